@@ -66,12 +66,22 @@ def run_batch(prop, tier, runs=None, budget=None, workers=None, quiet=False,
   agg = eng.new_agg(mode)
   next_index = 0
   waves = 0
+  known = kernel.known_signatures(prop)
+
+  def unlisted(vs):
+    return [v for v in vs if kernel.canon(v["violation"].get(
+        "signature", {"class": v["violation"]["class"]})) not in known]
+
   while next_index < target and bud.left() > 0:
+    if unlisted(agg["violations"]):
+      break   # the verdict is decided; more runs only add more examples
     wave = []
+    # a small first wave so that a badly broken tree fails fast
+    this_chunk = max(1, chunk // 8) if waves == 0 else chunk
     for _ in range(workers * plan.get("chunks_per_worker", 2)):
       if next_index >= target:
         break
-      hi = min(target, next_index + chunk)
+      hi = min(target, next_index + this_chunk)
       wave.append(eng.chunk_args(seed, mode, tier, next_index, hi,
                                  want_samples=(3 if next_index == 0 else 0)))
       next_index = hi
@@ -81,10 +91,9 @@ def run_batch(prop, tier, runs=None, budget=None, workers=None, quiet=False,
     waves += 1
   wall = time.time() - t0
   # ---- violations -> known findings / replay files
-  known = kernel.known_signatures(prop)
   known_hits = {}
   new_viol = []
-  for v in agg["violations"]:
+  for v in sorted(agg["violations"], key=lambda v: v["index"]):
     key = kernel.canon(v["violation"].get("signature",
                                           {"class": v["violation"]["class"]}))
     if key in known:
@@ -125,7 +134,7 @@ def run_batch(prop, tier, runs=None, budget=None, workers=None, quiet=False,
   coverage["known_finding_hits"] = {known[k]["id"]: len(h) for k, h in known_hits.items()}
   coverage["violations_total"] = len(agg["violations"])
   coverage["target_runs"] = target
-  if write:
+  if write and os.environ.get("VERIF_NO_EVIDENCE") != "1":
     kernel.write_evidence(prop, tier, seed, coverage, wall,
                           len(new_viol), eng.assumptions(mode))
   if not quiet:
